@@ -50,6 +50,17 @@ theorem T17_kraus_tuple_broadcast (qs : List Nat) (q nops : Nat) :
     normalise (.tuple qs) nops = List.replicate nops qs ∧
     normalise (.int q) nops = List.replicate nops [q] := ⟨rfl, rfl⟩
 
+/-- the channel's `target_qubits`: strictly increasing, and exactly the target qubits of the moved
+gates (every form of `qubits`, every operator list the constructor accepts). -/
+theorem T17_kraus_target_qubits_spec (a : QArg) (ops : List G) (b : Built) (h : build a ops = some b) :
+    b.targetQubits.Pairwise (· < ·) ∧
+    ∀ q : Nat, q ∈ b.targetQubits ↔ ∃ g ∈ b.gates, q ∈ g.targets := by
+  unfold build at h
+  simp only [Option.map_eq_some_iff] at h
+  obtain ⟨gs, _, rfl⟩ := h
+  refine ⟨pairwise_sortedSet _, fun q => ?_⟩
+  simp only [mem_sortedSet, List.mem_flatMap]
+
 /-- `Unitary(m, 1, 0)` requested on `(2, 0)`: positional gives `(2, 0)`, the sorted pairing `(0, 2)`. -/
 theorem T17_kraus_sorted_variant_differs :
     relabelGate [1, 0] [2, 0] = [2, 0] ∧ relabelGateSorted [1, 0] [2, 0] = [0, 2] := by decide
